@@ -18,19 +18,15 @@ open UrcuVerif UrcuVerif.Src UrcuVerif.Gen.Src UrcuVerif.Src.Sync
 /-! ## the template -/
 
 def rsCall : Stmt :=
-  .call (some "_t3") ["gp", "ctr", "group"] [.addrGlob "rcu_gp", .fieldAddr (.var "index") "ctr", .var "group"]
-    «urcu_common_reader_state»
-
-def mvSnap : Stmt := .prim none (.ext "cds_list_move") [.fieldAddr (.var "index") "node", .var "cur_snap_readers"]
-def mvQs : Stmt := .prim none (.ext "cds_list_move") [.fieldAddr (.var "index") "node", .var "qsreaders"]
+  .call (some "_t3") ["ctr", "group"] [.fieldAddr (.var "index") "ctr", .var "group"] «urcu_bp_reader_state»
 
 /-- the `switch` on the reader state (rendered as a loop that is left by `break`) -/
 def scanSwitch : Stmt :=
   .loop (block [
-    (.ifte (.bin .eq (.var "_t4") (.cst "URCU_READER_ACTIVE_CURRENT" (0)))
+    (.ifte (.bin .eq (.var "_t4") (.cst "URCU_BP_READER_ACTIVE_CURRENT" (0)))
       (block [(.ifte (.var "cur_snap_readers") (block [mvSnap, (.brk)]) (.skip)), mvQs, (.brk)])
-      (.ifte (.bin .eq (.var "_t4") (.cst "URCU_READER_INACTIVE" (2))) (block [mvQs, (.brk)])
-        (.ifte (.bin .eq (.var "_t4") (.cst "URCU_READER_ACTIVE_OLD" (1))) (.brk) (.skip)))),
+      (.ifte (.bin .eq (.var "_t4") (.cst "URCU_BP_READER_INACTIVE" (2))) (block [mvQs, (.brk)])
+        (.ifte (.bin .eq (.var "_t4") (.cst "URCU_BP_READER_ACTIVE_OLD" (1))) (.brk) (.skip)))),
     (.brk)])
 
 /-- body of `cds_list_for_each_entry_safe(index, tmp, input_readers, node)` -/
@@ -41,40 +37,30 @@ def scanBody : Stmt :=
     (.prim (some "_t2") (.ext "cds_list_for_each_entry_safe.next") ([.var "input_readers"] ++ [.var "index"])),
     scanRest]
 
-def stA (qa : String) : Stmt :=
-  .ifte (.bin .lt (.var "wait_loops") (.cst qa (100)))
-    (block [(.assign "_t1" (.var "wait_loops")), (.assign "wait_loops" (.bin .add (.var "wait_loops") (.lit 1)))]) (.skip)
-def stDec : Stmt := .prim none .udec [.fieldAddr (.addrGlob "rcu_gp") "futex", .cst "CMM_RELAXED" (0)]
-def stB (qa : String) (master : Stmt) : Stmt :=
-  .ifte (.bin .ge (.var "wait_loops") (.cst qa (100))) (block [stDec, (.call none [] [] master)]) (.skip)
-def stFirst : Stmt := .prim (some "_t2") (.ext "cds_list_for_each_entry_safe.first") [.var "input_readers"]
-def stEmpty : Stmt := .prim (some "_t5") (.ext "cds_list_empty") [.var "input_readers"]
-def stReset : Stmt := .prim none .ustore [.fieldAddr (.addrGlob "rcu_gp") "futex", .lit 0, .cst "CMM_RELAXED" (0)]
-def stRelock : Stmt :=
-  block [(.prim none (.ext "mutex_unlock") [.addrGlob "rcu_registry_lock"]), (.prim none .relax []),
-    (.prim none (.ext "mutex_lock") [.addrGlob "rcu_registry_lock"])]
-def stTail (qa : String) (master waitgp : Stmt) : Stmt :=
-  .ifte (.var "_t5")
-    (block [(.ifte (.bin .ge (.var "wait_loops") (.cst qa (100))) (block [(.call none [] [] master), stReset]) (.skip)),
-      (.brk)])
-    (.ifte (.bin .ge (.var "wait_loops") (.cst qa (100))) (.call none [] [] waitgp) stRelock)
+def qaBp : String := "bp.RCU_QS_ACTIVE_ATTEMPTS"
+def stUnlock : Stmt := .prim none (.ext "mutex_unlock") [.addrGlob "rcu_registry_lock"]
+def stLock : Stmt := .prim none (.ext "mutex_lock") [.addrGlob "rcu_registry_lock"]
+/-- `if (wait_loops >= RCU_QS_ACTIVE_ATTEMPTS) (void) poll(NULL, 0, RCU_SLEEP_DELAY_MS); else caa_cpu_relax();` -/
+def stSleep : Stmt :=
+  .ifte (.bin .ge (.var "wait_loops") (.cst "bp.RCU_QS_ACTIVE_ATTEMPTS" (100)))
+    (.prim none (.ext "poll") [.null, .lit 0, .cst "bp.RCU_SLEEP_DELAY_MS" (10)]) (.prim none .relax [])
+def stTail : Stmt := .ifte (.var "_t5") (.brk) (block [stUnlock, stSleep, stLock])
 
-def wfrBody (qa : String) (master waitgp : Stmt) : Stmt :=
-  block [stA qa, stB qa master, stFirst, (.loop scanBody), stEmpty, stTail qa master waitgp]
+def wfrBody : Stmt := block [stA "bp.RCU_QS_ACTIVE_ATTEMPTS", stFirst, (.loop scanBody), stEmpty, stTail]
 
-def wfrT (qa : String) (master waitgp : Stmt) : Stmt :=
-  block [(.assign "wait_loops" (.lit 0)), (.loop (wfrBody qa master waitgp))]
+def wfrBp : Stmt := block [(.assign "wait_loops" (.lit 0)), (.loop wfrBody)]
+
+theorem bp_wfr_eq : «bp.wait_for_readers» = wfrBp := rfl
 
 open Lean.Parser.Tactic in
 /-- run the checker on a closed event list -/
-macro "abs_simp" "[" ts:simpLemma,* "]" : tactic =>
+macro "abs_simp2" "[" ts:simpLemma,* "]" : tactic =>
   `(tactic| simp [Ok_cons, Ok_nil_iff, absEv, absExt, inList, curOK, masterAct, lrun, lstep, registry, curSnap, qsr, gpCtr,
-      gpFutex, regLock, mem_rm, $ts,*])
+      regLock, mem_rm, $ts,*])
 
-/-! ## `urcu_common_reader_state` -/
+/-! ## `urcu_bp_reader_state` -/
 
-/-- the function's answer: `URCU_READER_INACTIVE` = 2, `URCU_READER_ACTIVE_CURRENT` = 0, `URCU_READER_ACTIVE_OLD` = 1 -/
-def cls (g : Bool) (w : Int) : Int := if (decW w).1 = 0 then 2 else if (decW w).2 = g then 0 else 1
+theorem eq_null (l : Loc) : evalBin .eq (.ptr l) (.int 0) = .ok (.int 0) := by simp [evalBin, boolV]
 
 theorem rs_call_cons (fuel : Nat) (env : Env) (w : Int) (rest : List Val) (j : Nat) (gv : Val) (g : Bool)
     (hi : env.vars "index" = some (.ptr (.obj j))) (hg : env.vars "group" = some gv)
@@ -85,20 +71,20 @@ theorem rs_call_cons (fuel : Nat) (env : Env) (w : Int) (rest : List Val) (j : N
   simp only [gpCtr] at hp
   obtain ⟨n, rfl⟩ := Int.eq_ofNat_of_zero_le hw
   by_cases h0 : n % 4294967296 = 0
-  · simp [rsCall, «urcu_common_reader_state», block, exec, eval, evalArgs, execPrim, bind, Except.bind, asLoc, Env.setVar,
-      bindParams, setDst, evalUn, Val.truthy, hi, hg, hp, band_mask, bxor_gp, band_phase, hw, cls, decW, h0]
+  · simp [rsCall, «urcu_bp_reader_state», block, exec, eval, evalArgs, execPrim, bind, Except.bind, asLoc, Env.setVar,
+      bindParams, setDst, evalUn, Val.truthy, eq_null, hi, hg, hp, band_mask, bxor_gp, band_phase, hw, cls, decW, h0]
   · have h0' : ¬ ((n:Int) % 4294967296 = 0) := by omega
     by_cases h1 : n.testBit 32 = g <;>
-    simp [rsCall, «urcu_common_reader_state», block, exec, eval, evalArgs, execPrim, bind, Except.bind, asLoc, Env.setVar,
-        bindParams, setDst, evalUn, Val.truthy, hi, hg, hp, band_mask, bxor_gp, band_phase, hw, cls, decW, h0, h0', h1]
+    simp [rsCall, «urcu_bp_reader_state», block, exec, eval, evalArgs, execPrim, bind, Except.bind, asLoc, Env.setVar,
+        bindParams, setDst, evalUn, Val.truthy, eq_null, hi, hg, hp, band_mask, bxor_gp, band_phase, hw, cls, decW, h0, h0', h1]
 
 theorem rs_call_nil (fuel : Nat) (env : Env) (j : Nat) (gv : Val)
     (hi : env.vars "index" = some (.ptr (.obj j))) (hg : env.vars "group" = some gv) :
     exec fuel rsCall env [] =
-      .ok { events := [], env := { vars := bindParams ["gp", "ctr", "group"] [.ptr (.glob "rcu_gp"), .ptr (.field (.obj j) "ctr"), gv],
+      .ok { events := [], env := { vars := bindParams ["ctr", "group"] [.ptr (.field (.obj j) "ctr"), gv],
                                    priv := env.priv }, inp := [], ctl := .blocked } := by
-  simp [rsCall, «urcu_common_reader_state», block, exec, eval, evalArgs, execPrim, bind, Except.bind, asLoc, Env.setVar,
-      bindParams, setDst, evalUn, Val.truthy, hi, hg]
+  simp [rsCall, «urcu_bp_reader_state», block, exec, eval, evalArgs, execPrim, bind, Except.bind, asLoc, Env.setVar,
+      bindParams, setDst, evalUn, Val.truthy, eq_null, hi, hg]
 
 /-- a word that is not a non-negative integer makes the IR fail (bitwise operators are defined on non-negative integers
 only): such oracles are outside every theorem about `.ok` runs -/
@@ -107,13 +93,41 @@ theorem rs_call_err (fuel : Nat) (env : Env) (v : Val) (rest : List Val) (j : Na
     (hv : ∀ w, v = .int w → w < 0) (out : Out) : exec fuel rsCall env (v :: rest) ≠ .ok out := by
   cases v with
   | ptr l =>
-    simp [rsCall, «urcu_common_reader_state», block, exec, eval, evalArgs, execPrim, bind, Except.bind, asLoc, Env.setVar,
-      bindParams, setDst, evalUn, Val.truthy, hi, hg, evalBin]
+    simp [rsCall, «urcu_bp_reader_state», block, exec, eval, evalArgs, execPrim, bind, Except.bind, asLoc, Env.setVar,
+      bindParams, setDst, evalUn, Val.truthy, eq_null, hi, hg, evalBin, boolV]
   | int w =>
     have := hv w rfl
     have h2 : ¬ (0 ≤ w) := by omega
-    simp [rsCall, «urcu_common_reader_state», block, exec, eval, evalArgs, execPrim, bind, Except.bind, asLoc, Env.setVar,
-      bindParams, setDst, evalUn, Val.truthy, hi, hg, evalBin, h2]
+    simp [rsCall, «urcu_bp_reader_state», block, exec, eval, evalArgs, execPrim, bind, Except.bind, asLoc, Env.setVar,
+      bindParams, setDst, evalUn, Val.truthy, eq_null, hi, hg, evalBin, boolV, h2]
+
+/-- `urcu_bp_reader_state(ctr, group)` on its own (`ctr` non-NULL): ONE load of `*ctr` (relaxed), and the answer is L2's scan
+guard on the loaded word `(nest, ph) = decW w` against the phase `g` of the plain-read `urcu_bp_gp.ctr`: INACTIVE (2) iff
+`nest = 0`, ACTIVE_CURRENT (0) iff `0 < nest ∧ ph = g`, ACTIVE_OLD (1) otherwise (`Sync.cls`, the same function as for
+`urcu_common_reader_state`) -/
+theorem reader_state_exec (fuel : Nat) (env : Env) (C : Loc) (g : Bool) (w : Int) (rest : List Val)
+    (hc : env.vars "ctr" = some (.ptr C)) (hp : env.priv gpCtr = some (.int (encGp g))) (hw : 0 ≤ w) :
+    ∃ out, exec fuel «urcu_bp_reader_state» env (.int w :: rest) = .ok out ∧
+      out.events = [.ld C (.int w) 0] ∧ out.ctl = .ret (some (.int (cls g w))) ∧ out.inp = rest ∧
+      out.env.priv = env.priv := by
+  simp only [gpCtr] at hp
+  obtain ⟨n, rfl⟩ := Int.eq_ofNat_of_zero_le hw
+  by_cases h0 : n % 4294967296 = 0
+  · simp [«urcu_bp_reader_state», block, exec, eval, evalArgs, execPrim, bind, Except.bind, asLoc, Env.setVar,
+      bindParams, setDst, evalUn, Val.truthy, eq_null, hc, hp, band_mask, bxor_gp, band_phase, hw, cls, decW, h0]
+  · have h0' : ¬ ((n:Int) % 4294967296 = 0) := by omega
+    by_cases h1 : n.testBit 32 = g <;>
+    simp [«urcu_bp_reader_state», block, exec, eval, evalArgs, execPrim, bind, Except.bind, asLoc, Env.setVar,
+        bindParams, setDst, evalUn, Val.truthy, eq_null, hc, hp, band_mask, bxor_gp, band_phase, hw, cls, decW, h0, h0', h1]
+
+/-- the NULL case of the C text (never taken by `wait_for_readers`, which passes `&index->ctr`): no event, INACTIVE -/
+theorem reader_state_null (fuel : Nat) (env : Env) (inp : List Val) (hc : env.vars "ctr" = some (.int 0)) :
+    exec fuel «urcu_bp_reader_state» env inp = .ok { events := [], env := env, inp := inp, ctl := .ret (some (.int 2)) } := by
+  simp [«urcu_bp_reader_state», block, exec, eval, bind, Except.bind, evalBin, boolV, Val.truthy, hc]
+
+theorem reader_state_blocked (fuel : Nat) (env : Env) (C : Loc) (hc : env.vars "ctr" = some (.ptr C)) :
+    ∃ out, exec fuel «urcu_bp_reader_state» env [] = .ok out ∧ out.events = [] ∧ out.ctl = .blocked := by
+  simp [«urcu_bp_reader_state», block, exec, eval, evalArgs, execPrim, bind, Except.bind, asLoc, eq_null, Val.truthy, hc]
 
 /-! ## the switch -/
 
@@ -135,22 +149,6 @@ theorem switch_move (n : Nat) (env : Env) (inp : List Val) (c : Int) (k : Nat) (
     exec_simp [scanSwitch, mvSnap, mvQs, h4, hi, hcs, hq]
 
 /-! ## invariants -/
-
-/-- the two ways `wait_for_readers` is called: pass 1 `(&registry, &cur_snap_readers, &qsreaders)` at pc `p1`, pass 2
-`(&cur_snap_readers, NULL, &qsreaders)` at pc `p2` -/
-def Pass (upc : Gp.UPc) (hd : Loc) (csv : Val) : Prop :=
-  (upc = .p1 ∧ hd = registry ∧ csv = .ptr curSnap) ∨ (upc = .p2 ∧ hd = curSnap ∧ csv = .int 0)
-
-/-- the input list of the current pass -/
-def inputOf (ls : LState) : List Nat := if ls.upc = .p1 then ls.inp else ls.snap
-
-structure Ctx where
-  hd : Loc          -- `input_readers`
-  csv : Val         -- `cur_snap_readers`
-  gv : Val          -- `group`
-  g : Bool          -- phase of `rcu_gp.ctr`
-  upc : Gp.UPc
-  MPre : (Loc → Option Val) → Prop   -- what `smp_mb_master` needs of the private view (configuration globals)
 
 /-- invariant of the retry loop of `wait_for_readers` -/
 def IterInv (c : Ctx) (env : Env) (ss : SS) : Prop :=
@@ -228,7 +226,7 @@ theorem scanRest_holds (trk : Bool) (n : Nat) (c : Ctx) (env : Env) (inp : List 
           (by simp [hq])] at ho
         rcases hpass with ⟨hu, hh, hc⟩ | ⟨hu, hh, hc⟩ <;> cases rest2 <;> simp [hc2] at ho <;> subst ho <;>
           simp [inputOf, hupc, hu] at hk hr ⊢ <;>
-          abs_simp [hw', hupc, hu, h0, hk, ScanPost, ScanInv, IterInv, hc, hh, hin, hcs, hq, hg, hwl, hp, hm, Pass, hgp, h2, inputOf,
+          abs_simp2 [hw', hupc, hu, h0, hk, ScanPost, ScanInv, IterInv, hc, hh, hin, hcs, hq, hg, hwl, hp, hm, Pass, hgp, h2, inputOf,
             curOK_rm _ _ _ hr] <;>
           (try (have := curOK_rm _ _ _ hr; simpa [curOK, mem_rm] using this))
       · by_cases h1 : (decW w).2 = c.g
@@ -239,7 +237,7 @@ theorem scanRest_holds (trk : Bool) (n : Nat) (c : Ctx) (env : Env) (inp : List 
             (by simp [hq])] at ho
           rcases hpass with ⟨hu, hh, hc⟩ | ⟨hu, hh, hc⟩ <;> cases rest2 <;> simp [hc0, hc] at ho <;> subst ho <;>
             simp [inputOf, hupc, hu] at hk hr ⊢ <;>
-            abs_simp [hw', hupc, hu, h0, h0', h1, hk, ScanPost, ScanInv, IterInv, hc, hh, hin, hcs, hq, hg, hwl, hp, hm, Pass, hgp,
+            abs_simp2 [hw', hupc, hu, h0, h0', h1, hk, ScanPost, ScanInv, IterInv, hc, hh, hin, hcs, hq, hg, hwl, hp, hm, Pass, hgp,
               h2, inputOf, curOK_rm _ _ _ hr] <;>
             (try (have := curOK_rm _ _ _ hr; simpa [curOK, mem_rm] using this))
         · -- ACTIVE_OLD
@@ -248,7 +246,7 @@ theorem scanRest_holds (trk : Bool) (n : Nat) (c : Ctx) (env : Env) (inp : List 
           simp at ho; subst ho
           rcases hpass with ⟨hu, hh, hc⟩ | ⟨hu, hh, hc⟩ <;>
             simp [inputOf, hupc, hu] at hk hr ⊢ <;>
-            abs_simp [hw', hupc, hu, h0, h1, hk, ScanPost, ScanInv, IterInv, hc, hh, hin, hcs, hq, hg, hwl, hp, hm, Pass, hgp,
+            abs_simp2 [hw', hupc, hu, h0, h1, hk, ScanPost, ScanInv, IterInv, hc, hh, hin, hcs, hq, hg, hwl, hp, hm, Pass, hgp,
               h2, inputOf] <;>
             (try (have := curOK_weaken _ _ _ hr; simpa [curOK, mem_rm] using this))
 
@@ -313,3 +311,211 @@ theorem scanLoop_holds (trk : Bool) (n : Nat) (c : Ctx) (env : Env) (inp : List 
   · intro ctl e s w h1 h2 h3 h; cases ctl <;> simp_all [ScanPost, ScanLoopPost]
   · intro e s w h; trivial
 
+
+/-! ## the statements of one retry iteration -/
+
+def StepPost (c : Ctx) : Post := fun ctl env ss _ =>
+  match ctl with
+  | .normal => IterInv c env ss
+  | .blocked | .fuel => True
+  | _ => False
+
+theorem IterInv_pass {c : Ctx} {env ss} (h : IterInv c env ss) : ss.ls.upc = .p1 ∨ ss.ls.upc = .p2 := by
+  obtain ⟨_, _, _, _, _, _, _, hp, hu, _, _⟩ := h
+  rcases hp with ⟨h1, _, _⟩ | ⟨h1, _, _⟩ <;> simp [hu, h1]
+
+theorem stA_holds (trk fuel qa) (c : Ctx) (env inp ss wins) (hI : IterInv c env ss) :
+    Holds trk (exec fuel (stA qa) env inp) ss wins (StepPost c) := by
+  intro out ho
+  obtain ⟨h1, h2, h3, h4, ⟨k, h5⟩, h6, h7, h8, h9, h10, h11⟩ := hI
+  by_cases hk : k < 100 <;> exec_simp_at ho [stA, h5, hk] <;> subst ho <;>
+    simp [Ok_nil_iff, StepPost, IterInv, *]
+theorem IterInv_setVar {c : Ctx} {env : Env} {ss : SS} (x : String) (v : Val) (h : IterInv c env ss)
+    (hx : x ≠ "input_readers" ∧ x ≠ "cur_snap_readers" ∧ x ≠ "qsreaders" ∧ x ≠ "group" ∧ x ≠ "wait_loops") :
+    IterInv c { vars := fun y => if y = x then some v else env.vars y, priv := env.priv } ss := by
+  obtain ⟨h1, h2, h3, h4, ⟨k, h5⟩, h6, h7, h8, h9, h10, h11⟩ := h
+  obtain ⟨x1, x2, x3, x4, x5⟩ := hx
+  refine ⟨?_, ?_, ?_, ?_, ⟨k, ?_⟩, h6, h7, h8, h9, h10, h11⟩ <;> simp only <;> rw [if_neg (Ne.symm ‹_›)] <;> assumption
+
+theorem IterInv_ss {c : Ctx} {env : Env} {ss ss' : SS} (h : IterInv c env ss) (h1 : ss'.ls.upc = ss.ls.upc)
+    (h2 : ss'.ls.gp = ss.ls.gp) (h3 : ss'.pend = ss.pend) : IterInv c env ss' := by
+  obtain ⟨a1, a2, a3, a4, a5, a6, a7, a8, a9, a10, a11⟩ := h
+  exact ⟨a1, a2, a3, a4, a5, a6, a7, a8, by rw [h1]; exact a9, by rw [h2]; exact a10, by rw [h3]; exact a11⟩
+
+theorem stFirst_holds (trk fuel) (c : Ctx) (env inp ss wins) (hI : IterInv c env ss) :
+    Holds trk (exec fuel stFirst env inp) ss wins
+      (fun ctl e s _ => match ctl with | .normal => ScanInv c e s | .blocked => True | _ => False) := by
+  intro out ho
+  have hil := inList_of_pass hI
+  have h1 := hI.1
+  have h11 := hI.2.2.2.2.2.2.2.2.2.2
+  obtain ⟨ls, pend⟩ := ss
+  simp only at h11 hil; subst h11
+  cases inp with
+  | nil => exec_simp_at ho [stFirst, h1]; subst ho; simp [Ok_nil_iff]
+  | cons r rest =>
+    exec_simp_at ho [stFirst, h1]; subst ho
+    have hI2 := IterInv_setVar "_t2" r hI (by decide)
+    by_cases hr : curOK (inputOf ls) none r = true
+    · simp only [Ok_cons, absEv, absExt]
+      simp [hil, hr, lrun, Ok_nil_iff, ScanInv, hI2]
+    · simp [Ok_cons, absEv, absExt, hil, hr]
+
+theorem stEmpty_holds (trk fuel) (c : Ctx) (env inp ss wins) (hI : IterInv c env ss) :
+    Holds trk (exec fuel stEmpty env inp) ss wins
+      (fun ctl e s _ => match ctl with
+        | .normal => IterInv c e s ∧ ∃ r, e.vars "_t5" = some r ∧ r.truthy = decide (inputOf s.ls = [])
+        | .blocked => True
+        | _ => False) := by
+  intro out ho
+  have hil := inList_of_pass hI
+  have hps := IterInv_pass hI
+  have h1 := hI.1
+  have h11 := hI.2.2.2.2.2.2.2.2.2.2
+  obtain ⟨ls, pend⟩ := ss
+  simp only at h11 hil hps; subst h11
+  have hnidle : ¬ (ls.upc = .idle ∧ c.hd = registry) := by rcases hps with h | h <;> simp [h]
+  cases inp with
+  | nil => exec_simp_at ho [stEmpty, h1]; subst ho; simp [Ok_nil_iff]
+  | cons r rest =>
+    exec_simp_at ho [stEmpty, h1]; subst ho
+    have hI2 := IterInv_setVar "_t5" r hI (by decide)
+    by_cases hr : r.truthy = decide (inputOf ls = [])
+    · simp only [Ok_cons, absEv, absExt]
+      simp [hil, hr, lrun, Ok_nil_iff, hnidle, hI2]
+    · simp [Ok_cons, absEv, absExt, hil, hr, hnidle]
+
+theorem stUnlock_holds (trk fuel) (c : Ctx) (env inp ss wins) (hI : IterInv c env ss) :
+    Holds trk (exec fuel stUnlock env inp) ss wins (StepPost c) := by
+  intro out ho
+  have hI' := hI
+  obtain ⟨ls, pend⟩ := ss
+  cases inp <;> exec_simp_at ho [stUnlock] <;> subst ho
+  · simp [Ok_nil_iff, StepPost]
+  · abs_simp2 [StepPost]; exact hI'
+
+/-- the sleep of the retry path (`poll` after `RCU_QS_ACTIVE_ATTEMPTS` attempts, `caa_cpu_relax` before): silent -/
+theorem stSleep_holds (trk fuel) (c : Ctx) (env inp ss wins) (hI : IterInv c env ss) :
+    Holds trk (exec fuel stSleep env inp) ss wins (StepPost c) := by
+  have hI' := hI
+  obtain ⟨k, hk⟩ := hI.2.2.2.2.1
+  obtain ⟨ls, pend⟩ := ss
+  rw [stSleep, exec_ifte _ _ _ _ _ _ _ (eval_ge env _ k hk)]
+  by_cases hk100 : k ≥ 100
+  · simp only [boolV, hk100, decide_true, if_true, Val.truthy]
+    intro out ho
+    cases inp <;> exec_simp_at ho [] <;> subst ho
+    · simp [Ok_nil_iff, StepPost]
+    · abs_simp2 [StepPost]; exact hI'
+  · simp only [boolV, hk100, decide_false, Val.truthy]
+    intro out ho
+    exec_simp_at ho []; subst ho
+    abs_simp2 [StepPost]; exact hI'
+
+/-- `mutex_lock(&rcu_registry_lock)`: the window – the other threads' `reg` / `unreg` operations are applied -/
+theorem stLock_holds (trk fuel) (c : Ctx) (env inp ss wins) (hI : IterInv c env ss) :
+    Holds trk (exec fuel stLock env inp) ss wins (StepPost c) := by
+  intro out ho
+  obtain ⟨ls, pend⟩ := ss
+  obtain ⟨ls', hl1, hl2, hl3⟩ := lrun_env (wins.head?.getD []) ls
+  have hI2 : IterInv c env ⟨ls', pend⟩ := IterInv_ss hI hl2 hl3 rfl
+  cases inp <;> exec_simp_at ho [stLock] <;> subst ho <;> abs_simp2 [StepPost, hl1, hI, hI2]
+
+/-! ## one retry iteration and the whole `wait_for_readers` -/
+
+/-- postcondition of one retry iteration: `break` only with an empty input list -/
+def IterPost (c : Ctx) : Post := fun ctl env ss _ =>
+  match ctl with
+  | .normal => IterInv c env ss
+  | .brk => IterInv c env ss ∧ inputOf ss.ls = []
+  | .blocked | .fuel => True
+  | _ => False
+
+theorem stTail_holds (trk fuel) (c : Ctx) (env inp ss wins) (hI : IterInv c env ss)
+    (r : Val) (h5 : env.vars "_t5" = some r) (hr : r.truthy = decide (inputOf ss.ls = [])) :
+    Holds trk (exec fuel stTail env inp) ss wins (IterPost c) := by
+  rw [stTail, exec_ifte _ _ _ _ _ _ _ (eval_var env "_t5" r h5)]
+  by_cases ht : r.truthy = true
+  · have hnil : inputOf ss.ls = [] := by simpa [ht] using hr
+    simp only [ht, if_true]
+    intro out ho
+    simp only [exec, Except.ok.injEq] at ho; subst ho
+    simp only [Ok_nil_iff, IterPost]
+    exact ⟨hI, hnil⟩
+  · simp only [ht, if_false]
+    have hnn : ∀ ctl e s w, ctl ≠ .normal → StepPost c ctl e s w → IterPost c ctl e s w := by
+      intro ctl e s w hn h; cases ctl <;> simp_all [StepPost, IterPost]
+    refine Holds.seq (stUnlock_holds trk fuel c env inp ss wins hI) ?_ hnn
+    intro e i s w hq
+    refine Holds.seq (stSleep_holds trk fuel c e i s w hq) ?_ hnn
+    intro e i s w hq
+    refine (stLock_holds trk fuel c e i s w hq).mono ?_
+    intro ctl e s w h
+    cases ctl <;> simp_all [StepPost, IterPost]
+
+theorem wfrBody_holds (trk n) (c : Ctx) (env inp ss wins) (hI : IterInv c env ss) :
+    Holds trk (exec (n+1) wfrBody env inp) ss wins (IterPost c) := by
+  have hnn : ∀ ctl e s w, ctl ≠ .normal → StepPost c ctl e s w → IterPost c ctl e s w := by
+    intro ctl e s w hn h; cases ctl <;> simp_all [StepPost, IterPost]
+  refine Holds.seq (stA_holds trk (n+1) _ c env inp ss wins hI) ?_ hnn
+  intro e i s w hq
+  refine Holds.seq (stFirst_holds trk (n+1) c e i s w hq) ?_ ?_
+  · intro e i s w hq
+    refine Holds.seq (scanLoop_holds trk n c e i s w hq) ?_ ?_
+    · intro e i s w hq
+      refine Holds.seq (stEmpty_holds trk (n+1) c e i s w hq) ?_ ?_
+      · intro e i s w hq
+        obtain ⟨hq1, r, hq2, hq3⟩ := hq
+        exact stTail_holds trk (n+1) c e i s w hq1 r hq2 hq3
+      · intro ctl e s w hn h; cases ctl <;> simp_all [IterPost]
+    · intro ctl e s w hn h; cases ctl <;> simp_all [ScanLoopPost, IterPost]
+  · intro ctl e s w hn h; cases ctl <;> simp_all [IterPost]
+
+/-- what a completed `wait_for_readers` guarantees: the input list is empty (abstractly), the environment is as before
+except for `wait_loops`-like locals, the checker is at the same pc and phase -/
+def WfrPost (c : Ctx) : Post := fun ctl env ss _ =>
+  match ctl with
+  | .normal => IterInv c env ss ∧ inputOf ss.ls = []
+  | .blocked | .fuel => True
+  | _ => False
+
+/-- the hypotheses on a call of `wait_for_readers`: the parameters are bound as `Ctx` says -/
+def WfrPre (c : Ctx) (env : Env) (ss : SS) : Prop :=
+  env.vars "input_readers" = some (.ptr c.hd) ∧ env.vars "cur_snap_readers" = some c.csv ∧
+  env.vars "qsreaders" = some (.ptr qsr) ∧ env.vars "group" = some c.gv ∧
+  env.priv gpCtr = some (.int (encGp c.g)) ∧ c.MPre env.priv ∧
+  Pass c.upc c.hd c.csv ∧ ss.ls.upc = c.upc ∧ ss.ls.gp = c.g ∧ ss.pend = none
+
+theorem wfrBp_holds (trk fuel) (c : Ctx) (env inp ss wins) (hP : WfrPre c env ss) :
+    Holds trk (exec fuel wfrBp env inp) ss wins (WfrPost c) := by
+  obtain ⟨h1, h2, h3, h4, h6, h7, h8, h9, h10, h11⟩ := hP
+  have hI : IterInv c (env.setVar "wait_loops" (.int 0)) ss :=
+    ⟨by simp [Env.setVar, h1], by simp [Env.setVar, h2], by simp [Env.setVar, h3], by simp [Env.setVar, h4],
+      ⟨0, by simp [Env.setVar]⟩, h6, h7, h8, h9, h10, h11⟩
+  refine Holds.seq (Qa := fun ctl e s w => ctl = .normal ∧ IterInv c e s) ?_ ?_ ?_
+  · intro out ho
+    exec_simp_at ho []; subst ho
+    simp only [Ok_nil_iff, true_and]
+    simpa [Env.setVar] using hI
+  · intro e i s w hq
+    cases fuel with
+    | zero =>
+      intro out ho
+      simp only [block, exec, iterate, Except.ok.injEq] at ho; subst ho
+      simp [Ok_nil_iff, WfrPost]
+    | succ n =>
+      simp only [block, exec]
+      refine Holds.loop _ (fun e s _ => IterInv c e s) (IterPost c) (WfrPost c)
+        (fun e i s w h => wfrBody_holds trk n c e i s w h) ?_ ?_ ?_ ?_ ?_ (n+1) e i s w hq.2
+      · intro e s w h; exact h
+      · intro e s w h; exact h.elim
+      · intro e s w h; exact h
+      · intro ctl e s w h1 h2 h3 h; cases ctl <;> simp_all [IterPost, WfrPost]
+      · intro e s w h; trivial
+  · intro ctl e s w hn h; exact absurd h.1 hn
+
+theorem bp_wfr_holds (trk fuel) (c : Ctx) (env inp ss wins) (hP : WfrPre c env ss) :
+    Holds trk (exec fuel «bp.wait_for_readers» env inp) ss wins (WfrPost c) := by
+  rw [bp_wfr_eq]; exact wfrBp_holds trk fuel c env inp ss wins hP
+
+end UrcuVerif.Src.Sync2
